@@ -313,6 +313,117 @@ variant("c07_short_leader", ["C07", "C09"], {"C07": ["C07.R1"]},
             return Ok(None);
         }""")])
 
+# ---------------------------------------------------------------------------------------------
+# NEGATIVE variants: behaviour-preserving rewrites.  No rule of the listed properties may fire.
+ALLP = ["C01", "C02", "C03", "C04", "C05", "C06", "C07", "C08", "C09", "C10", "C11", "C12", "C13", "C14", "C15"]
+variant("neg_explicit_match_instead_of_question_mark", ALLP, {},
+        "append_batch handles the entry write's error with an explicit if-let + return instead of `?`",
+        [(CORE, """            self.storage.flush_infos(&outcome.infos_to_flush).await?;
+            self.header = outcome.header;
+
+            // Write to bitfield
+            self.bitfield.update(&bitfield_update);""", """            if let Err(err) = self.storage.flush_infos(&outcome.infos_to_flush).await {
+                return Err(err);
+            }
+            self.header = outcome.header;
+
+            // Write to bitfield
+            self.bitfield.update(&bitfield_update);""")])
+variant("neg_renamed_locals", ALLP, {},
+        "local variables renamed in append_batch, verify_upgrade and create_valueless_proof",
+        [(CORE, """            let mut changeset = self.tree.changeset();
+            let mut batch_length: usize = 0;
+            for data in batch.as_ref().iter() {
+                batch_length += changeset.append(data.as_ref());
+            }
+            changeset.hash_and_sign(secret_key);""", """            let mut pending = self.tree.changeset();
+            let mut batch_length: usize = 0;
+            for data in batch.as_ref().iter() {
+                batch_length += pending.append(data.as_ref());
+            }
+            pending.hash_and_sign(secret_key);
+            let changeset = pending;"""),
+         (MT, """    let mut q = if let Some(block_root) = block_root {
+        NodeQueue::new(upgrade.nodes.clone(), Some(block_root.clone()))
+    } else {
+        NodeQueue::new(upgrade.nodes.clone(), None)
+    };""", """    let mut queue = if let Some(block_root) = block_root {
+        NodeQueue::new(upgrade.nodes.clone(), Some(block_root.clone()))
+    } else {
+        NodeQueue::new(upgrade.nodes.clone(), None)
+    };
+    let q = &mut queue;""")])
+variant("neg_constructor_helper", ALLP, {},
+        "the BitfieldUpdate of an append is built by a small constructor function",
+        [("src/common/mod.rs", """#[derive(Debug, Clone, PartialEq, Eq)]
+pub(crate) struct BitfieldUpdate {""", """impl BitfieldUpdate {
+    pub(crate) fn set(start: u64, length: u64) -> Self {
+        Self {
+            drop: false,
+            start,
+            length,
+        }
+    }
+}
+
+#[derive(Debug, Clone, PartialEq, Eq)]
+pub(crate) struct BitfieldUpdate {"""),
+         (CORE, """            let bitfield_update = BitfieldUpdate {
+                drop: false,
+                start: changeset.ancestors,
+                length: changeset.batch_length,
+            };""", """            let bitfield_update = BitfieldUpdate::set(changeset.ancestors, changeset.batch_length);""")])
+variant("neg_reordered_independent_statements", ALLP, {},
+        "independent statements reordered: header assignment after the bitfield update in append_batch; key cleared in the other order in make_read_only",
+        [(CORE, """            self.header = outcome.header;
+
+            // Write to bitfield
+            self.bitfield.update(&bitfield_update);
+
+            // Contiguous length is known only now
+            update_contiguous_length(&mut self.header, &self.bitfield, &bitfield_update);""", """            // Write to bitfield
+            self.bitfield.update(&bitfield_update);
+            self.header = outcome.header;
+
+            // Contiguous length is known only now
+            update_contiguous_length(&mut self.header, &self.bitfield, &bitfield_update);"""),
+         (CORE, """            self.key_pair.secret = None;
+            self.header.key_pair.secret = None;""", """            self.header.key_pair.secret = None;
+            self.key_pair.secret = None;""")])
+variant("neg_two_calls_under_one_lock", ["C15", "C10", "C13"], {},
+        "SharedCore::append performs two Hypercore calls under one guard",
+        [(SC, """            let mut core = self.0.lock().await;
+            Ok(core.append(data).await?)""", """            let mut core = self.0.lock().await;
+            let before = core.info().length;
+            let outcome = core.append(data).await?;
+            debug_assert!(outcome.length > before);
+            Ok(outcome)""")])
+variant("neg_while_let_loop", ALLP, {},
+        "flush_infos iterates with an explicit iterator and while-let",
+        [(ST, """        for info in infos.iter() {
+            if info.store != current_store {""", """        let mut remaining = infos.iter();
+        while let Some(info) = remaining.next() {
+            if info.store != current_store {""")])
+variant("neg_guard_rewritten", ALLP, {},
+        "NodeQueue::shift's cursor guard written as `!(i < len)`; verify_and_apply_proof's fork gate as `==` with swapped arms",
+        [(MT, """        if self.i >= self.nodes.len() {
+            return Err(HypercoreError::InvalidOperation {
+                context: format!("Expected node {index}, got (nil)"),
+            });
+        }""", """        if !(self.i < self.nodes.len()) {
+            return Err(HypercoreError::InvalidOperation {
+                context: format!("Expected node {index}, got (nil)"),
+            });
+        }"""),
+         (CORE, """        if proof.fork != self.tree.fork {
+            return Ok(false);
+        }
+        let changeset = self.verify_proof(proof).await?;""", """        if self.tree.fork == proof.fork {
+        } else {
+            return Ok(false);
+        }
+        let changeset = self.verify_proof(proof).await?;""")])
+
 
 def main():
     only = sys.argv[1:]
